@@ -23,7 +23,7 @@ COUNTERS = ("arrays", "asize", "maps", "nodes", "objs", "progs", "strs", "sent")
 
 def script_of(h):
     ops = ["proj stats", "setcfg MaxEvaluationCost 100000000", "setcfg MaxArraySize 20000", "backend", "connect u1", "cycle", "line u1 name u1", "cycle",
-           "line u1 do me xcall2:/obj/rc1:inp:name:0", "cycle", "line u1 warm", "cycle", "call /obj/rc1 nop", "call /obj/rc2 nop", "call /obj/rc1 dest", "call /obj/rc2 dest",
+           "line u1 do me xcall2:/obj/rc1:inp:name:0", "cycle", "line u1 warm", "cycle", "call /obj/pd nop", "call /obj/rc1 nop", "call /obj/rc2 nop", "call /obj/rc1 dest", "call /obj/rc2 dest",
            "note B0", "snapshot", "leakcheck base", "call /obj/rc1 nop", "call /obj/rc2 nop", "note Base", "snapshot"]
     alive = {"o1": True, "o2": True}
     pending = False
@@ -48,6 +48,8 @@ def script_of(h):
             ops.append("call %s %s" % (o, "rmco_h" if s.get("by") == "handle" else "rmco"))
         elif op == "many":
             ops.append("call %s many #%d #70000" % (o, s["i"]))
+        elif op == "clones":
+            ops.append("call %s clones #70000" % o)
         elif op == "unmany":
             ops.append("call %s unmany" % o)
         elif op == "inp":
@@ -134,12 +136,16 @@ def run(tier, work):
     sims.sort(key=lambda h: json.dumps(h, sort_keys=True))
     rnd.shuffle(sims)
     allh = hists + sims[:nsim]
-    print("GEN %d histories (exhaustive, sampled) + %d simulated (seed %d)" % (len(hists), len(allh) - len(hists), vlib.SEED))
+    # histories with 70000 clones take seconds each: a seeded handful of them
+    heavy = [h for h in allh if any(s_["op"] == "clones" for s_ in h)]
+    keep = set(id(h) for h in heavy[:(6 if tier == "quick" else 100)])
+    allh = [h for h in allh if id(h) in keep or not any(s_["op"] == "clones" for s_ in h)]
+    print("GEN %d histories (exhaustive, sampled + simulated, seed %d), %d of them with 70000 clones" % (len(allh), vlib.SEED, len(keep)))
     conf, _ = work.mudlib()
     scen = [(str(i), script_of(h)) for i, h in enumerate(allh)]
     t1 = time.time()
     env = {"ASAN_OPTIONS": vlib.ASAN_ENV["ASAN_OPTIONS"].replace("detect_leaks=0", "detect_leaks=1") + ":leak_check_at_exit=0"}
-    exs = vlib.run_vdrv(exe, conf, scen, work, tag="run", env=env, timeout=20)
+    exs = vlib.run_vdrv(exe, conf, scen, work, tag="run", env=env, timeout=120)
     print("RUN %d scenarios in %.1fs" % (len(exs), time.time() - t1))
     ncrash = 0
     for ex, sigs, raw in vlib.confirmed_crashes(exe, conf, scen, exs, work, env=env):
